@@ -752,7 +752,7 @@ def rule_borrowed(ctx, F):
 
 
 # ------------------------------------------------------------------------------------------------
-# R1: a reference taken is a reference kept (stack.c)
+# K1: a reference taken is a reference kept (stack.c)
 # ------------------------------------------------------------------------------------------------
 RETAINERS = {"ts_subtree_retain": 0, "stack_node_retain": 0}
 RETAIN_FILES = ("lib/src/stack.c",)
@@ -784,7 +784,7 @@ class KeptMonitor(Monitor):
 
 
 def rule_kept(ctx, F):
-    """R1: in the parse stack, every retain is there because the reference is put somewhere: on each path through a
+    """K1: in the parse stack, every retain is there because the reference is put somewhere: on each path through a
     ts_subtree_retain / stack_node_retain of a local value, that value (or the struct it is part of) is stored into a
     node, a head or a slice, or returned.  A retain on a path that drops the value (e.g. when a node's link array is
     already full) is never balanced by a release: stack nodes and subtrees survive ts_parser_delete."""
@@ -811,11 +811,34 @@ def rule_kept(ctx, F):
             v = sr.run((False, False))
             key = "%s:%s" % (fn.name, nm)
             if v is None:
-                ctx.ok("R1", key, "every path that retains `%s` also stores it (%d retain site(s), %d states)" % (nm, len(pts), sr.states), sample={"function": fn.name, "sites": [fn.loc(p) for p in pts]} if n <= 4 else None)
+                ctx.ok("K1", key, "every path that retains `%s` also stores it (%d retain site(s), %d states)" % (nm, len(pts), sr.states), sample={"function": fn.name, "sites": [fn.loc(p) for p in pts]} if n <= 4 else None)
             else:
-                ctx.bad("R1", key, "%s %s (`%s`, retained at %s): the reference is never released — a leak that outlives ts_parser_delete" % (fn.name, v.msg, nm, ", ".join(fn.loc(p) for p in pts)),
+                ctx.bad("K1", key, "%s %s (`%s`, retained at %s): the reference is never released — a leak that outlives ts_parser_delete" % (fn.name, v.msg, nm, ", ".join(fn.loc(p) for p in pts)),
                         {"function": fn.name, "path": sr.render_path(v.path)[-6:] if v.path else []})
     ctx.floor("retain calls of local values in stack.c", n, 5)
+
+
+def rule_copied_cursor(ctx, F):
+    """K2: a growable array that was copied by value is handed back to its owner.  ts_subtree_get_changed_ranges walks
+    with Iterator structs that hold *copies* of the caller's two TreeCursors; pushing onto a copy's stack may reallocate
+    it, so before returning the function stores each iterator's cursor back through the caller's pointer — otherwise the
+    caller later frees the block that realloc already released and leaks the new one."""
+    fn = ctx.need_fn(F, "ts_subtree_get_changed_ranges", "K2")
+    if not fn:
+        return
+    curs = [p for p in fn.params if "TreeCursor" in str(p.get("t") or "")]
+    if len(curs) < 2:
+        curs = [p for p in fn.params if p["name"].startswith("cursor")]
+    ctx.floor("TreeCursor parameters of ts_subtree_get_changed_ranges", len(curs), 2)
+    for p in curs:
+        back = []
+        for pt, e in fn.points():
+            for n in own_walk(e):
+                if n.get("k") == "assign" and n.get("op") == "=":
+                    l, r = strip(n["l"]), strip(n["r"])
+                    if l.get("k") == "un" and l.get("op") == "*" and strip(l["e"]).get("k") == "ref" and strip(l["e"]).get("id") == p["id"] and r.get("k") == "mem" and r.get("f") == "cursor":
+                        back.append(pt)
+        ctx.on_all_paths("K2", "ts_subtree_get_changed_ranges:%s-written-back" % p["name"], fn, back, "the iterator's (possibly reallocated) cursor is stored back through `%s`" % p["name"])
 
 
 def run(ctx):
@@ -832,6 +855,7 @@ def run(ctx):
         rule_a1(ctx, F)
         rule_borrowed(ctx, F)
         rule_kept(ctx, F)
+        rule_copied_cursor(ctx, F)
         # "freed exactly once": a clone must own its own copy of what release frees per node (shared with C08.P2)
         import C08
         C08.rule_p2(ctx, F)
